@@ -6,7 +6,7 @@ def plan(ctx):
     for mode, subs in ((1, (0,)), (2, (0,)), (3, (0, 1)), (4, (0, 1))):
         for sub in subs:
             obs.append(Ob(id=f"hdr-mode{mode}-sub{sub}", harness="c09.c", defs={"MODE": mode, "SUB": sub}, units=uf_units(),
-                          unwind=(90 if mode < 3 else 4), unwindset=({} if mode < 3 else dict({f"main.{i}": 90 for i in range(8)}, **{"vin_bytes.0": 90})), timeout=600, mem_gb=8,
+                          unwind=(90 if mode < 3 else 4), unwindset=({} if mode < 3 else dict({f"main.{i}": 90 for i in range(8)})), timeout=600, mem_gb=8,
                           sample={"symbolic": "82 fragment bytes (80 header + 2 payload), v_std, v_alt (2^720 cases)",
                                   "bound_payload": 2, "api": T[mode - 1]},
                           targets=[T[mode - 1], "is_invalid_fragment_header"]))
